@@ -18,7 +18,7 @@ pub const FLOORS: &[&str] = &[
     "origin:default", "origin:other", "origin:ge8000", "image_straddles_8000", "break_or_orig_interleaved",
     "assembly_after_memory_was_modified", "label_like_register_with_digits", "break_table_row", "break_table_row_truncated",
     "break_table_row_multibyte", "break_table_row_without_statement", "image_crosses_fe00", "label_shaped_like_number_or_register",
-    "eval_of_a_line_with_its_label_in_front",
+    "eval_of_a_line_with_its_label_in_front", "stmt:continued_on_the_next_line",
 ];
 
 pub fn run(cfg: &Cfg, col: &mut Collector) {
@@ -243,6 +243,9 @@ fn one_case(seed: u64, i: u64) -> CaseOut {
                         }
                     }
                     prev_item = Some(item);
+                    if text[s..s + l].contains('\n') {
+                        out.class("stmt:continued_on_the_next_line");
+                    }
                     format!("{}\n", &text[s..s + l])
                 } else {
                     out.class(if k < 0 { "addr:below_origin" } else { "addr:beyond_image" });
@@ -355,10 +358,21 @@ fn one_case(seed: u64, i: u64) -> CaseOut {
             };
             let table = strip_ansi(&s2.obs.out_debugger[b.dbg_len..a.dbg_len]);
             let rows = parse_table(&table);
+            // a continued statement in the table tears its rows apart: nothing to compare row by row then
+            let any_continued = a.bps.iter().any(|x| {
+                let k = x.0 as i32 - orig as i32;
+                k >= 0 && k < n && {
+                    let (s, l) = rendered.stmt_spans[img.item_of_word[k as usize]].expect("statement span");
+                    text[s..s + l].contains('\n')
+                }
+            });
+            if any_continued {
+                out.class("break_table_with_a_continued_statement_not_compared");
+            }
             let mut expected: Vec<u16> = a.bps.iter().map(|x| x.0).collect();
             expected.sort();
             expected.dedup();
-            for addr in &expected {
+            for addr in expected.iter().filter(|_| !any_continued) {
                 let Some((_, label_cell, text_cell, label_cap, text_cap)) = rows.iter().find(|r| r.0 == *addr) else {
                     out.violate(
                         "C17/break-table-row-missing",
@@ -376,6 +390,12 @@ fn one_case(seed: u64, i: u64) -> CaseOut {
                 } else {
                     String::new()
                 };
+                if want_text.contains('\n') {
+                    // a statement continued on a second line: the table has one line per row (what it makes
+                    // of such a cell is not compared; minimal `assembly` above shows the full text)
+                    out.class("break_table_row_of_a_continued_statement");
+                    continue;
+                }
                 if !cell_shows(text_cell, &want_text, *text_cap) {
                     out.violate(
                         "C17/break-table-text",
